@@ -40,6 +40,7 @@ def nfft(parity=None, sym='m'):
     else:
         a = Aff.sym('NFFT')
         Aff.SYM_MIN['NFFT'] = 8
+    NFFT_AFF[0] = a
     return IntV(a, frozenset(['NFFT']), nfft=F(1), name='NFFT')
 
 
